@@ -267,14 +267,16 @@ def run(case):
     # axis-aligned members are also given with exactly snapped components (no 1e-16 noise)
     snap = bool(rng.random() < 0.5)
     az, ay, ax_ = (np.round(v, 12) + 0.0 for v in (zz, yy, xx)) if snap else (zz, yy, xx)
+    # snapped axes are scaled by exact powers of two (a non-unit axis that is still exactly (0, -k, 0))
+    sc2 = 2.0 ** rng.integers(-1, 3, size=(N, 1)) if rng.random() < 0.6 else np.ones((N, 1))
     for pair in ("zy", "yx", "zx"):
         kw = {}
         if "z" in pair:
-            kw["z"] = az * (1.0 if snap else sc)
+            kw["z"] = az * (sc2 if snap else sc)
         if "y" in pair:
-            kw["y"] = ay * (1.0 if snap else sc)
+            kw["y"] = ay * (sc2 if snap else sc)
         if "x" in pair:
-            kw["x"] = ax_ * (1.0 if snap else sc)
+            kw["x"] = ax_ * (sc2 if snap else sc)
         try:
             m = Molecules.from_axes(pos, **kw)
             err = _ang(m.rotator, R)
